@@ -12,6 +12,7 @@ RULE = ('one evaluation = one driver life under a seeded limit configuration (Ma
         'catch) and unbounded builders (doubling strings/arrays/mappings/buffers through operators and efuns) run as user commands, '
         'heart beats, call_outs, input_to callbacks, logon and create(), with 0-3 LPC catch levels around them. non-trivial = at least '
         'one limit error was raised; distinct = distinct (spender/builder kind, task kind, catch depth, limit class) combinations.')
+RULE += (' Later additions: spenders that catch an error per turn, recursion through array literals, a per-evaluation instruction monitor (configured cost plus one refill per raised limit error), masters whose handler completes a catch.')
 COMPONENTS = {'real': ['src/interpret.c', 'src/frame.c', 'src/stack.c', 'src/error_context.c', 'src/backend.c', 'lib/lpc/array.c', 'lib/lpc/mapping.c', 'lib/lpc/buffer.c', 'lib/efuns/string.c', 'lib/efuns/sprintf.c'],
               'stub': ['kernel sockets/clock/timer (simulated)'], 'hook': ['per-instruction callback: call depth, value-stack height and size of the value on top of the stack']}
 ASSUMPTIONS = ['set_eval_limit/reset_eval_cost are excluded (documented privileged override)',
